@@ -127,6 +127,21 @@ func main() {
 								}
 							}
 						}
+						// error lists put together from other lists: append(append(make(...), A...), B...) -> [A, B]
+						if call, ok := v.(*ast.CallExpr); ok && exprString(fset, call.Fun) == "append" {
+							var parts []string
+							var walk func(c *ast.CallExpr)
+							walk = func(c *ast.CallExpr) {
+								if inner, ok := c.Args[0].(*ast.CallExpr); ok && exprString(fset, inner.Fun) == "append" {
+									walk(inner)
+								}
+								for _, a := range c.Args[1:] {
+									parts = append(parts, exprString(fset, a))
+								}
+							}
+							walk(call)
+							f.Tables[id.Name+"_parts"] = parts
+						}
 						// error constructor shapes
 						if call, ok := v.(*ast.CallExpr); ok {
 							fn := exprString(fset, call.Fun)
@@ -260,6 +275,96 @@ func main() {
 	lockOrder("submitPersisted.locks", "Client.submitPersisted", false)
 	lockOrder("Close.locks", "Client.Close", false)
 	lockOrder("Disconnect.locks", "Client.Disconnect", false)
+
+	// signal order: the calls that flip the Online/Offline signals and the statements that hand the write semaphore back (or
+	// close it), in source order. `topOnly` looks at the statements of the function body itself (the main path); otherwise
+	// deferred function literals are included (Close and Disconnect flip the signals in a deferred epilogue).
+	signalOrder := func(key, fn string, topOnly bool) {
+		fd := funcs[fn]
+		if fd == nil {
+			f.Missing = append(f.Missing, key+"("+fn+")")
+			return
+		}
+		var order []string
+		visit := func(n ast.Node) bool {
+			switch x := n.(type) {
+			case *ast.CallExpr:
+				e := exprString(fset, x.Fun)
+				if (e == "blockSignalChan" || e == "clearSignalChan") && len(x.Args) == 1 {
+					a := exprString(fset, x.Args[0])
+					order = append(order, strings.TrimSuffix(e, "SignalChan")+":"+a[strings.LastIndex(a, ".")+1:])
+				}
+				if e == "close" && len(x.Args) == 1 && strings.HasSuffix(exprString(fset, x.Args[0]), ".writeSem") {
+					order = append(order, "close:writeSem")
+				}
+			case *ast.SendStmt:
+				if strings.HasSuffix(exprString(fset, x.Chan), ".writeSem") {
+					order = append(order, "send:writeSem")
+				}
+			}
+			return true
+		}
+		for _, st := range fd.Body.List {
+			if topOnly {
+				switch st.(type) {
+				case *ast.ExprStmt, *ast.SendStmt:
+					ast.Inspect(st, visit)
+				}
+			} else if d, ok := st.(*ast.DeferStmt); ok {
+				ast.Inspect(d, visit)
+			}
+		}
+		if len(order) == 0 {
+			f.Missing = append(f.Missing, key+"("+fn+")")
+			return
+		}
+		f.Syntax[key] = strings.Join(order, ",")
+	}
+	signalOrder("connect.signals", "Client.connect", true)
+	signalOrder("toOffline.signals", "Client.toOffline", true)
+	signalOrder("Close.signals", "Client.Close", false)
+	signalOrder("Disconnect.signals", "Client.Disconnect", false)
+
+	// capacity of the channel a request waits on for its response: make(chan error, N)
+	chanCap := func(key, fn string) {
+		syn(key, fn, func(n ast.Node) (string, bool) {
+			if c, ok := n.(*ast.CallExpr); ok && exprString(fset, c.Fun) == "make" && len(c.Args) >= 1 && exprString(fset, c.Args[0]) == "chan error" {
+				if len(c.Args) == 1 {
+					return "0", true
+				}
+				if v, ok := evalInt(c.Args[1]); ok {
+					return v, true
+				}
+			}
+			return "", false
+		})
+	}
+	chanCap("startTx.chanCap", "unorderedTxs.startTx")
+	chanCap("Ping.chanCap", "Client.Ping")
+
+	// size limits: the comparison of a request's size with packetMax (operator), per request kind
+	for _, fn := range []string{"Client.subscribeLevel", "Client.Unsubscribe", "publishPacket"} {
+		syn(strings.TrimPrefix(fn, "Client.")+".sizeLimit", fn, func(n ast.Node) (string, bool) {
+			if be, ok := n.(*ast.BinaryExpr); ok && exprString(fset, be.Y) == "packetMax" {
+				return exprString(fset, be.X) + " " + be.Op.String() + " packetMax", true
+			}
+			return "", false
+		})
+	}
+
+	// Client.Backoff: the table behind its nil result (case err == nil || nonNilIsAny(err, TABLE))
+	syn("Backoff.nilTable", "Client.Backoff", func(n ast.Node) (string, bool) {
+		if cc, ok := n.(*ast.CaseClause); ok {
+			for _, e := range cc.List {
+				if be, ok := e.(*ast.BinaryExpr); ok && be.Op == token.LOR && exprString(fset, be.X) == "err == nil" {
+					if c, ok := be.Y.(*ast.CallExpr); ok && exprString(fset, c.Fun) == "nonNilIsAny" && len(c.Args) == 2 {
+						return exprString(fset, c.Args[1]), true
+					}
+				}
+			}
+		}
+		return "", false
+	})
 
 	// remaining-length guard: if shift > K  (operator and constant)
 	syn("peekPacket.shiftGuard", "Client.peekPacket", func(n ast.Node) (string, bool) {
@@ -425,7 +530,7 @@ func main() {
 	}
 	sort.Strings(sn)
 	for _, n := range sn {
-		if strings.HasSuffix(n, ".locks") {
+		if strings.HasSuffix(n, ".locks") || strings.HasSuffix(n, ".signals") {
 			fmt.Fprintf(&sb, "def %s : List String := %s\n", leanName("syn_"+strings.ReplaceAll(n, ".", "_")), strList(strings.Split(f.Syntax[n], ",")))
 			continue
 		}
